@@ -112,7 +112,7 @@ Proof.
 Qed.
 
 Example shortcut_premises_satisfiable :
-  let q := q_plain NEvent ex_range [] in
+  let q := q_plain (U NCal) {| rn_upper := NEvent; rn_is_upper := false |} ex_range [] in   (* name="vevent" *)
   ranges_ok q /\
   reference (fun _ _ => true) std_fuel q [ex_item; ex_item2] = Some [ex_item] /\
   report (fun _ _ => true) std_fuel q [ex_item; ex_item2] = Some [ex_item].
